@@ -394,3 +394,108 @@ BAIT_FIXED = {
              " (|||" + "٣" * 100 + "x"],
     "dir": [' "' + '"' * 301, ' "' + 'a""' * 200, ' ' + '"' * 1000, ' "' + "a" * 5000, ' "' + '""' * 500 + "x"],
 }
+
+
+# ---- lines that are well-formed UP TO one column and broken ONLY there (bounded-exhaustive: base line x column x broken value) ----
+# A parser reaches the code that handles column k only on a line whose columns < k are valid; a line that is garbage from the first
+# byte ends in the first check.  Every column of the three listing formats gets its own broken values, everything else stays valid,
+# so each parsing step (and whatever library / environment it depends on: strptime, the process locale) sees malformed input.
+UNIX_BASES = [
+    # (type+mode, links, owner, group, size, month, day, time-or-year, name)
+    ("-rw-r--r--", "1", "poh", "poh", "6595", "Feb", "27", "12:30", "history.rst"),
+    ("drwxr-xr-x", "2", "0", "0", "4096", "Mar", " 1", " 2018", "docs"),
+    ("lrwxrwxrwx", "1", "root", "wheel", "11", "Nov", "18", "23:59", "link -> /target/'"),
+]
+UNIX_BROKEN = {
+    "type": ["", "?", "é", "D"],
+    "mode": ["rw-r--r-", "rw-r--r-?", "rwxrwxrwz", "---------x", "rw"],
+    "links": ["x", "", "²", "1a", "-1"],
+    "owner": [""],
+    "group": [""],
+    "size": ["x", "", "1,024", "²", "1.5", "-1"],
+    "month": ["Foo", "Sept", "13", "", "мар", "ſep", "Fe", "Febr"],
+    "day": ["0", "32", "31", "xx", "٣", "-1", ""],
+    "time": ["25:61", "24:00", "12:60", "xx:yy", "1230", "12:3x", "١٢:٣٠", ":", "12:"],
+    "year": [" 0000", "10000", " abcd", "-2018", " 20x8", " ٢٠١٨", "     "],
+    "name": ["", " ", ".", ".."],
+    "link": [" -> ", "a -> ", "a -> '", 'a -> "'],
+}
+WIN_BASES = [
+    # (date, time, am/pm, <DIR>-or-size, name)
+    ("03/15/2018", "10:12", "AM", "<DIR>", "folder"),
+    ("10/27/2016", "06:02", "PM", "1,234", "file.bin"),
+]
+WIN_BROKEN = {
+    "date": ["13/45/2018", "00/10/2018", "02/30/2018", "2018-03-15", "03/15/18x", "03.15.2018", "٠٣/١٥/٢٠١٨", "3/15", ""],
+    "time": ["77:12", "00:00", "13:00", "12:60", "1012", "xx:yy", "10:", ""],
+    "ampm": ["XM", "M", "am.M", "ÄM", "pM M"],
+    "mid": ["1.5", "x", "<DIR>x", "<dir>", "²", "1,,2", ","],
+    "name": ["", ".", ".."],
+}
+MLSX_BASES = [("type=file;size=10;modify=20200101000000;", "name.txt"), ("Type=dir;perm=el;", "sub dir")]
+MLSX_BROKEN = {
+    "facts": ["size=10;", "type;", "=file;", "typefile;", ";", "type=file", "type=file;;size", "TYPE=", "size=1;type"],
+    "sep": [""],
+    "name": ["", " ", ".", ".."],
+}
+
+
+def column_cases():
+    """[(line bytes, family, 'column:<which>')]: for every base line, every column, every broken value -- the other columns untouched"""
+    out = []
+    for mode, links, owner, group, size, mon, day, ty, name in UNIX_BASES:
+        def build(**kw):
+            f = dict(mode=mode, links=links, owner=owner, group=group, size=size, mon=mon, day=day, ty=ty, name=name)
+            f.update(kw)
+            date = (f["mon"] + " " + f["day"] + " " + f["ty"]).ljust(12)[:12] if "date" not in kw else kw["date"]
+            return f"{f['mode']} {f['links']} {f['owner']} {f['group']} {f['size']} {date} {f['name']}\r\n".encode("utf-8")
+
+        out.append((build(), "unix", "column:none"))
+        for col, vals in UNIX_BROKEN.items():
+            for v in vals:
+                if col == "type":
+                    b = build(mode=v + mode[1:])
+                elif col == "mode":
+                    b = build(mode=mode[0] + v)
+                elif col == "month":
+                    b = build(mon=v)
+                elif col == "day":
+                    b = build(day=v)
+                elif col in ("time", "year"):
+                    b = build(ty=v)
+                elif col == "link":
+                    if not mode.startswith("l"):
+                        continue
+                    b = build(name=v)
+                else:
+                    b = build(**{col: v})
+                out.append((b, "unix", "column:" + col))
+        # the 12-character date column as a whole
+        for d in ["Feb 31 12:30", "Feb 29 xx:yy", "Foo 27  2018", "xxxxxxxxxxxx", "            ", "Feb 30  2018", "Jan  1 00:60", "2018-02-27 1", "Feb 27 12:30"[::-1]]:
+            out.append((build(date=d), "unix", "column:date"))
+    for date, time, ap, mid, name in WIN_BASES:
+        def wbuild(**kw):
+            f = dict(date=date, time=time, ampm=ap, mid=mid, name=name)
+            f.update(kw)
+            return f"{f['date']}  {f['time']} {f['ampm']}    {f['mid']:<14} {f['name']}\r\n".encode("utf-8")
+
+        out.append((wbuild(), "windows", "column:none"))
+        for col, vals in WIN_BROKEN.items():
+            for v in vals:
+                out.append((wbuild(**{col: v}), "windows", "column:" + col))
+    for facts, name in MLSX_BASES:
+        out.append(((facts + " " + name + "\r\n").encode("utf-8"), "mlsx", "column:none"))
+        for v in MLSX_BROKEN["facts"]:
+            out.append(((v + " " + name + "\r\n").encode("utf-8"), "mlsx", "column:facts"))
+        out.append(((facts + name + "\r\n").encode("utf-8"), "mlsx", "column:sep"))
+        for v in MLSX_BROKEN["name"]:
+            out.append(((facts + " " + v + "\r\n").encode("utf-8"), "mlsx", "column:name"))
+    return out
+
+
+def column_broken(rng):
+    """one random column case, optionally with a random valid prefix/suffix variation (line ending)"""
+    b, fam, kind = rng.choice(column_cases())
+    if rng.random() < 0.3:
+        b = b.rstrip(b"\r\n") + rng.choice([b"\n", b"", b"\r\n"])
+    return b, fam, kind
